@@ -32,6 +32,7 @@ import (
 	"net"
 	"os"
 	"path/filepath"
+	"sort"
 	"strings"
 	"sync"
 	"time"
@@ -86,6 +87,11 @@ type caseIn struct {
 	// bridge stream: how the tunnel started by the REAL startSourceBridge ends; Rec gives the mapping and the tunnel id
 	Way string `json:"way,omitempty"` // abort | cancel | complete | duplicate | restart | timeout
 	Rec *recIn `json:"rec,omitempty"`
+	// conc / sweep streams
+	Pool    int      `json:"pool,omitempty"`    // go-redis connection pool size of every Redis client (default 2)
+	Recs    []*recIn `json:"recs,omitempty"`    // conc: the records registered concurrently (distinct tunnel ids)
+	Workers int      `json:"workers,omitempty"` // conc storm: number of goroutines
+	Fill    int      `json:"fill,omitempty"`    // sweep: lapsed filler entries that make the sweep long
 }
 
 type recOut struct {
@@ -167,6 +173,7 @@ type world struct {
 	never   bool // the backend never expires by itself
 	split   bool // nodes do not share a store
 	mems    []*memory.Storage
+	rclis   []*rstore.Storage
 	closers []func()
 }
 
@@ -202,8 +209,13 @@ func newWorld(c caseIn) *world {
 	}
 	ttl := time.Duration(c.TTLms) * time.Millisecond
 	newRedis := func() storage.Storage {
-		st, err := rstore.New(ctx, &rstore.Config{Addr: w.mr.Addr(), PoolSize: 2})
+		pool := 2
+		if c.Pool > 0 {
+			pool = c.Pool
+		}
+		st, err := rstore.New(ctx, &rstore.Config{Addr: w.mr.Addr(), PoolSize: pool})
 		must(err)
+		w.rclis = append(w.rclis, st)
 		w.closers = append(w.closers, func() { st.Close() })
 		return st
 	}
@@ -863,6 +875,295 @@ func runBridge(c caseIn) *bridgeOut {
 }
 
 // ---------------------------------------------------------------------------------------------
+// concurrency at the granularity of storage calls.
+//
+// conc:  several goroutines of ONE node register distinct tunnel ids at the same time through the real backend
+//        (redis.Storage over miniredis: the go-redis client copies the value bytes when it writes the command to the
+//        socket, exactly where the real client does).  Obligation checked: Storage.Set is atomic - what is stored under
+//        a key is the encoding of the value handed to THAT call.  Afterwards every id is looked up on a PEER node and
+//        must return exactly its own record; the registrations (ordered by the CreatedAt the code chose) and the
+//        lookups are handed to the model as a sequential history.
+//        way "storm": workers x records, connection pool of 1 so writers queue for the connection.
+//        way "gated": the single pooled connection is held by a blocking BLPOP; Register #1 has encoded its value and
+//        waits for the connection, Register #2 encodes its (shorter) value, then the connection is released and #1's
+//        bytes go out.  (Run with GOMAXPROCS=1 so that a sync.Pool hands #2 the buffer #1 gave back.)
+// sweep: the backend's sweep (memory.Storage.CleanupExpired, directly / through hybrid.Storage / by the StartCleanup
+//        ticker) races the re-registration of a lapsed-but-unswept tunnel id: the harness polls Storage.mu until the
+//        sweep is inside its critical section and then registers, so the write queues on the mutex and lands as early
+//        as the sweep allows.  Whatever the order, once RegisterWaitingTunnel returned the id must resolve on every node.
+// ---------------------------------------------------------------------------------------------
+
+type concOut struct {
+	Stream  string  `json:"stream"`
+	Backend string  `json:"backend"`
+	Way     string  `json:"way"`
+	PropOK  bool    `json:"prop_ok"`
+	PropKey string  `json:"prop_key,omitempty"`
+	PropMsg string  `json:"prop_msg,omitempty"`
+	FailAt  int     `json:"fail_at"`
+	Ops     []opIn  `json:"ops"` // the equivalent sequential history (for the model replay)
+	Obs     []opOut `json:"obs"`
+	Judged  int     `json:"judged"`
+	Amb     int     `json:"ambiguous"`
+	Bad     int     `json:"bad"`
+	Overlap bool    `json:"overlap"` // sweep: the registration was issued while the sweep held the mutex
+	Left    int     `json:"left"`    // sweep: physical entries left afterwards
+}
+
+type timer struct{ base time.Time }
+
+func (o opOut) Rec0(reg *tunnel.WaitingState, tm timer) int64 { return tm.rel(reg.CreatedAt) }
+func (t timer) since() int64          { return int64(time.Since(t.base)) }
+func (t timer) rel(x time.Time) int64 { return int64(x.Sub(t.base)) }
+
+func doReg(tm timer, rt *tunnel.RoutingTable, node int, r *recIn) (opIn, opOut, *tunnel.WaitingState, error) {
+	st := toState(r)
+	var oo opOut
+	oo.T0 = tm.since()
+	err := rt.RegisterWaitingTunnel(context.Background(), st)
+	oo.T1 = tm.since()
+	if err != nil {
+		oo.Res, oo.Err = "err", err.Error()
+		oo.Rec = fromState(st, 0, 0)
+	} else {
+		oo.Res = "ok"
+		oo.Rec = fromState(st, tm.rel(st.CreatedAt), tm.rel(st.ExpiresAt))
+	}
+	return opIn{Op: "reg", N: node, Rec: r}, oo, st, err
+}
+
+func doLook(tm timer, rt *tunnel.RoutingTable, node int, tid string, reg *tunnel.WaitingState) (opIn, opOut, *tunnel.WaitingState) {
+	var oo opOut
+	oo.T0 = tm.since()
+	got, err := rt.LookupWaitingTunnel(context.Background(), tid)
+	oo.T1 = tm.since()
+	switch {
+	case err == nil:
+		oo.Res = "ok"
+		cr, ex := tm.rel(got.CreatedAt), tm.rel(got.ExpiresAt)
+		if reg != nil && got.CreatedAt.Equal(reg.CreatedAt) {
+			cr = tm.rel(reg.CreatedAt)
+		}
+		if reg != nil && got.ExpiresAt.Equal(reg.ExpiresAt) {
+			ex = tm.rel(reg.ExpiresAt)
+		}
+		oo.Rec = fromState(got, cr, ex)
+	case err == tunnel.ErrNotFound:
+		oo.Res = "notfound"
+	case err == tunnel.ErrExpired:
+		oo.Res = "expired"
+	default:
+		oo.Res, oo.Err = "err", err.Error()
+	}
+	return opIn{Op: "look", N: node, Tid: hx([]byte(tid))}, oo, got
+}
+
+func exactly(reg, got *tunnel.WaitingState) string {
+	if f, d := fieldDiff(reg, got); f != "" {
+		return f + " " + d
+	}
+	if !got.CreatedAt.Equal(reg.CreatedAt) || !got.ExpiresAt.Equal(reg.ExpiresAt) {
+		return "CreatedAt/ExpiresAt"
+	}
+	return ""
+}
+
+func runConc(c caseIn) *concOut {
+	out := &concOut{Stream: "conc", Backend: c.Backend, Way: c.Way, PropOK: true, FailAt: -1}
+	c.Nodes = 2
+	if c.Pool == 0 {
+		c.Pool = 1
+	}
+	w := newWorld(c)
+	defer w.close()
+	tm := timer{time.Now()}
+	type done struct {
+		in  opIn
+		out opOut
+		st  *tunnel.WaitingState
+		err error
+	}
+	res := make([]done, len(c.Recs))
+	var wg sync.WaitGroup
+	register := func(i int) {
+		defer wg.Done()
+		in, oo, st, err := doReg(tm, w.tables[0], 0, c.Recs[i])
+		res[i] = done{in, oo, st, err}
+	}
+	switch c.Way {
+	case "gated":
+		// hold node 0's only pooled connection, start the registrations one after the other, release
+		var hold sync.WaitGroup
+		if len(w.rclis) > 0 {
+			hold.Add(1)
+			go func() {
+				defer hold.Done()
+				w.rclis[0].Client().BLPop(context.Background(), 250*time.Millisecond, "verif:c09:nokey")
+			}()
+			time.Sleep(30 * time.Millisecond)
+		}
+		for i := range c.Recs {
+			wg.Add(1)
+			go register(i)
+			time.Sleep(25 * time.Millisecond) // #i has encoded its value and waits for the connection
+		}
+		hold.Wait()
+	default: // storm
+		workers := c.Workers
+		if workers <= 0 {
+			workers = 16
+		}
+		start := make(chan struct{})
+		for g := 0; g < workers; g++ {
+			wg.Add(1)
+			go func(g int) {
+				defer wg.Done()
+				<-start
+				for i := g; i < len(c.Recs); i += workers {
+					wg.Add(1)
+					register(i)
+				}
+			}(g)
+		}
+		close(start)
+	}
+	wg.Wait()
+	// the equivalent sequential history: registrations in the order of the instants the code stamped, then lookups
+	order := make([]int, len(res))
+	for i := range order {
+		order[i] = i
+	}
+	sort.Slice(order, func(a, b int) bool { return res[order[a]].out.Rec.Created < res[order[b]].out.Rec.Created })
+	for _, i := range order {
+		out.Ops = append(out.Ops, res[i].in)
+		out.Obs = append(out.Obs, res[i].out)
+		if res[i].err != nil && out.PropOK {
+			out.PropOK, out.PropKey, out.FailAt = false, "register-failed", len(out.Ops)-1
+			out.PropMsg = fmt.Sprintf("concurrent RegisterWaitingTunnel(%s) on %s failed: %v", short(res[i].st.TunnelID), c.Backend, res[i].err)
+		}
+	}
+	ttl := w.tables[0].VerifTTL()
+	for _, i := range order {
+		if res[i].err != nil {
+			continue
+		}
+		reg := res[i].st
+		for _, node := range []int{1, 0} {
+			in, oo, got := doLook(tm, w.tables[node], node, reg.TunnelID, reg)
+			out.Ops = append(out.Ops, in)
+			out.Obs = append(out.Obs, oo)
+			if time.Duration(oo.T1+epsNs)-time.Duration(tm.rel(reg.CreatedAt)) >= ttl {
+				out.Amb++
+				continue
+			}
+			out.Judged++
+			bad := ""
+			if oo.Res != "ok" {
+				bad = fmt.Sprintf("does not resolve: %s %s", oo.Res, oo.Err)
+			} else if d := exactly(reg, got); d != "" {
+				bad = "resolves to foreign data: " + d
+			}
+			if bad != "" {
+				out.Bad++
+				if out.PropOK {
+					out.PropOK, out.PropKey, out.FailAt = false, "concurrent-registration-corrupted", len(out.Ops)-1
+					out.PropMsg = fmt.Sprintf("%s on %s: %d tunnel ids were registered concurrently on node 0; afterwards %s looked up from node %d %s", c.Way, c.Backend, len(c.Recs), short(reg.TunnelID), node, bad)
+				}
+			}
+		}
+	}
+	if !out.PropOK && out.PropKey == "concurrent-registration-corrupted" {
+		out.PropMsg += fmt.Sprintf(" (%d of %d lookups wrong)", out.Bad, out.Judged)
+	}
+	return out
+}
+
+func runSweep(c caseIn) *concOut {
+	out := &concOut{Stream: "sweep", Backend: c.Backend, Way: c.Way, PropOK: true, FailAt: -1}
+	n := c.Fill
+	if n <= 0 {
+		n = 60000
+	}
+	c.Nodes = 2
+	fail := func(key, msg string) {
+		if out.PropOK {
+			out.PropOK, out.PropKey, out.PropMsg, out.FailAt = false, key, msg, len(out.Ops)-1
+		}
+	}
+	for attempt := 0; attempt < 4 && !out.Overlap && out.PropOK; attempt++ {
+		out.Ops, out.Obs, out.Judged = nil, nil, 0
+		w := newWorld(c)
+		m := w.mems[0]
+		tm := timer{time.Now()}
+		add := func(in opIn, oo opOut) {
+			out.Ops = append(out.Ops, in)
+			out.Obs = append(out.Obs, oo)
+		}
+		tid := string(unhx(c.Recs[0].Tunnel))
+		// first life of the id on node 0; then it lapses together with a lot of other runtime keys, nothing is swept yet
+		in, oo, _, err := doReg(tm, w.tables[0], 0, c.Recs[0])
+		add(in, oo)
+		must(err)
+		for i := 0; i < n; i++ {
+			must(w.stores[0].Set(fmt.Sprintf("tunnox:temp:fill:%d", i), "x", time.Hour))
+		}
+		w.advance(2 * time.Hour)
+		add(opIn{Op: "ff", D: 7200000}, opOut{Res: "ok", T0: tm.since(), T1: tm.since()})
+		in, oo, _ = doLook(tm, w.tables[1], 1, tid, nil)
+		add(in, oo)
+		out.Judged++
+		if oo.Res == "ok" {
+			fail("stale-after-expiry", fmt.Sprintf("sweep on %s: the lapsed record of %s still resolves", c.Backend, short(tid)))
+		}
+		// the sweep starts; as soon as it is inside its critical section the id is registered again on node 1
+		sweepDone := make(chan struct{})
+		if c.Way == "ticker" {
+			m.StartCleanup(2 * time.Millisecond)
+			close(sweepDone)
+		} else {
+			go func() { _ = w.stores[0].CleanupExpired(); close(sweepDone) }()
+		}
+		deadline := time.Now().Add(2 * time.Second)
+		for time.Now().Before(deadline) {
+			if m.VerifMuTryLock() {
+				m.VerifMuUnlock()
+				if m.VerifLen() < n/2 {
+					break // the sweep is over already: too late for this attempt
+				}
+				continue
+			}
+			out.Overlap = true
+			break
+		}
+		in, oo, reg2, err := doReg(tm, w.tables[1], 1, c.Recs[1])
+		add(in, oo)
+		<-sweepDone
+		if c.Way == "ticker" {
+			for i := 0; i < 500 && m.VerifLen() > 8; i++ {
+				time.Sleep(time.Millisecond)
+			}
+			m.StopCleanup()
+		}
+		if err != nil {
+			fail("register-failed", fmt.Sprintf("sweep on %s: re-registration failed: %v", c.Backend, err))
+		}
+		for _, node := range []int{0, 1} {
+			in, oo, got := doLook(tm, w.tables[node], node, tid, reg2)
+			add(in, oo)
+			out.Judged++
+			if oo.Res != "ok" {
+				fail("sweep-deletes-fresh-registration", fmt.Sprintf("%s sweep on %s: %s lapsed unswept, then {CleanupExpired || RegisterWaitingTunnel(%s) on node 1} both returned (registration issued while the sweep held the mutex: %v); the lookup from node %d answers %s %s although the registration is %v old", c.Way, c.Backend, short(tid), short(tid), out.Overlap, node, oo.Res, oo.Err, time.Duration(oo.T1-oo.Rec0(reg2, tm))))
+			} else if d := exactly(reg2, got); d != "" {
+				fail("sweep-registration-field", fmt.Sprintf("%s sweep on %s: the re-registered %s resolves to different data: %s", c.Way, c.Backend, short(tid), d))
+			}
+		}
+		out.Left = m.VerifLen()
+		w.close()
+	}
+	return out
+}
+
+// ---------------------------------------------------------------------------------------------
 // probes (reported, never judged): aliasing of the caller's struct, the map[string]interface{} decode path
 // ---------------------------------------------------------------------------------------------
 
@@ -1182,6 +1483,10 @@ func main() {
 				results[i] = runProbe(c)
 			} else if c.Stream == "bridge" {
 				results[i] = runBridge(c)
+			} else if c.Stream == "conc" {
+				results[i] = runConc(c)
+			} else if c.Stream == "sweep" {
+				results[i] = runSweep(c)
 			} else {
 				results[i] = runCase(c)
 			}
